@@ -43,7 +43,7 @@ def wasserstein(dgm1, dgm2, matching=False):
 
     """
 
-    S = np.array(dgm1)
+    S = np.array(dgm1, dtype=float)
     M = min(S.shape[0], S.size)
     if S.size > 0:
         S = S[np.isfinite(S[:, 1]), :]
@@ -53,7 +53,7 @@ def wasserstein(dgm1, dgm2, matching=False):
                 "ignoring those points"
             )
             M = S.shape[0]
-    T = np.array(dgm2)
+    T = np.array(dgm2, dtype=float)
     N = min(T.shape[0], T.size)
     if T.size > 0:
         T = T[np.isfinite(T[:, 1]), :]
